@@ -9,30 +9,19 @@ Open Scope Z_scope.
 (* fit on well-typed baseline data raises DataSufficiencyError exactly when the data carries a
    disqualification and the override is not given; otherwise it returns a fitted model (the only other
    outcome is the explicit-GHI configuration error of the hourly model) *)
-(* full statement (no side condition on the object's history) *)
-Definition C04_fit_statement : Prop := forall poor f s d i, is_baseline_of f (d_kind d) = true ->
-  snd (fit poor f s d i) = Fitted \/ snd (fit poor f s d i) = Err DataSufficiency \/
-  snd (fit poor f s d i) = Err ValueMissingFeature.
-
-(* the coded behaviour refutes it in exactly one corner, recorded as known finding C04-K1: refitting an
-   HourlyModel object obtained from from_json raises AttributeError and leaves the object unfitted *)
-Definition ex_hclean := {| d_id := 1; d_kind := Baseline Hourly; d_dq := []; d_tz := 3; d_ghi := false |}.
-Theorem C04_fit_statement_refuted : ~ C04_fit_statement.
-Proof.
-  intros H.
-  specialize (H (fun _ => false) Hourly (reload (unfitted false)) ex_hclean false eq_refl).
-  vm_compute in H. destruct H as [H|[H|H]]; discriminate.
-Qed.
-Print Assumptions C04_fit_statement_refuted.
-
-(* partial: everywhere else *)
-Theorem C04_fit_gate_partial : forall poor f s d i, refit_of_reloaded_hourly f s = false ->
-  is_baseline_of f (d_kind d) = true ->
+Theorem C04_fit_gate : forall poor f s d i, is_baseline_of f (d_kind d) = true ->
   (snd (fit poor f s d i) = Err DataSufficiency <-> (d_dq d <> [] /\ i = false)) /\
   (snd (fit poor f s d i) = Fitted \/ snd (fit poor f s d i) = Err DataSufficiency \/
    (f = Hourly /\ m_ghi s = true /\ d_ghi d = false /\ snd (fit poor f s d i) = Err ValueMissingFeature)).
 Proof. exact fit_gate_l. Qed.
-Print Assumptions C04_fit_gate_partial.
+Print Assumptions C04_fit_gate.
+
+(* in particular an object restored from storage can be fitted again like any other (this corner was refuted
+   by the coded behaviour until /repo commit 4e082e66: known finding C04-K1, now fixed) *)
+Definition ex_hclean := {| d_id := 1; d_kind := Baseline Hourly; d_dq := []; d_tz := 3; d_ghi := false |}.
+Example C04_refit_of_reloaded_hourly :
+  snd (fit (fun _ => false) Hourly (reload (unfitted false)) ex_hclean false) = Fitted.
+Proof. vm_compute. reflexivity. Qed.
 
 Theorem C04_fit_wrong_type : forall poor f s d i, is_baseline_of f (d_kind d) = false ->
   fit poor f s d i = (s, Err TypeErr).
@@ -48,7 +37,7 @@ Theorem C04_fit_inherits : forall poor f s d i, snd (fit poor f s d i) = Fitted 
 Proof. exact fit_ok_state. Qed.
 Print Assumptions C04_fit_inherits.
 
-Theorem C04_failed_fit_keeps_object : forall poor f s d i e, refit_of_reloaded_hourly f s = false ->
+Theorem C04_failed_fit_keeps_object : forall poor f s d i e,
   snd (fit poor f s d i) = Err e -> fst (fit poor f s d i) = s.
 Proof. exact fit_err_keeps_state. Qed.
 Print Assumptions C04_failed_fit_keeps_object.
